@@ -182,7 +182,8 @@ main(int argc, char **argv)
   /* Set up the genetic code. Default = NCBI 1, the standard code; allow ORFs to start at any aa
    */
   gcode = esl_gencode_Create(nt_abc, aa_abc);
-  esl_gencode_Set(gcode, esl_opt_GetInteger(go, "-c"));  // default = 1, the standard genetic code
+  if (esl_gencode_Set(gcode, esl_opt_GetInteger(go, "-c")) != eslOK)  // default = 1, the standard genetic code
+    esl_fatal("No NCBI genetic code table with id %d; esl-translate -h lists the available ones", esl_opt_GetInteger(go, "-c"));
 
   if      (esl_opt_GetBoolean(go, "-m"))   esl_gencode_SetInitiatorOnlyAUG(gcode);
   else if (! esl_opt_GetBoolean(go, "-M")) esl_gencode_SetInitiatorAny(gcode);      // note this is the default, if neither -m or -M are set
